@@ -23,6 +23,7 @@ from ..alias import (
     Val,
     Write,
     attribute_stores,
+    bound_names,
     chain_str,
     enum_paths,
     expand,
@@ -539,6 +540,12 @@ def rule_constructor(rep: Report, ix, clf: Classifier) -> None:
             continue
         n += 1
         adopt = p.decided(lambda t: isinstance(t, ast.Name) and t.id == "with_ghost_cells") is True
+        # the request to adopt must be the caller's: a path that re-binds `with_ghost_cells` itself, or on which `data`
+        # was found to be a field object (a field given as data is always copied), is not an adopting path
+        rebound = any(isinstance(st, ast.Assign) and any("with_ghost_cells" in bound_names(t) for t in st.targets) for _, st in p.stmts())
+        is_field = p.decided(lambda t: isinstance(t, ast.Call) and chain_str(t.func) == "isinstance" and len(t.args) == 2 and isinstance(t.args[0], ast.Name) and t.args[0].id == "data" and chain_str(t.args[1]) in ("self.__class__", "DataFieldBase", "FieldBase", "type(self)")) is True
+        if adopt and (rebound or is_field):
+            adopt = False
         calls = [(i, st.value) for i, st in p.stmts() if isinstance(st, ast.Expr) and is_super_call(st.value) == "__init__"]
         if len(calls) != 1:
             rep.violation("C15.constructor-isolation", f"{ref}::super-init", f"a path calls FieldBase.__init__ {len(calls)} times", line=f.node.lineno)
